@@ -228,6 +228,7 @@ pub fn run_here(scn: &Scenario, transcript: bool) -> (Option<Violation>, RunStat
     if scn.needs_fresh_reference() {
         crate::iso::start_reference_server();
     }
+    crate::world::KEEP_LOG.store(transcript, std::sync::atomic::Ordering::Relaxed);
     let mut st = RunStats::new(transcript);
     let v = scn.run(&mut st);
     crate::iso::stop_reference_server();
